@@ -179,6 +179,18 @@ func (n *Node) render(b *strings.Builder) {
 		b.WriteString("(defn " + n.S + " " + paramList(n.Names, n.Var))
 		renderAll(b, n.Kids)
 		b.WriteString(")")
+	case "funcdecl":
+		// typed declaration: (func name [a:int64 #b:int64] [r:int64] body...)
+		b.WriteString("(func " + n.S + " [")
+		for i, nm := range n.Names {
+			if i > 0 {
+				b.WriteString(" ")
+			}
+			b.WriteString(nm + ":int64")
+		}
+		b.WriteString("] [r:int64]")
+		renderAll(b, n.Kids)
+		b.WriteString(")")
 	case "call":
 		b.WriteString("(")
 		n.Kids[0].render(b)
@@ -214,6 +226,10 @@ func (n *Node) render(b *strings.Builder) {
 		b.WriteString("(assert")
 		renderAll(b, n.Kids)
 		b.WriteString(")")
+	case "islazy":
+		b.WriteString("(== (type?")
+		renderAll(b, n.Kids)
+		b.WriteString(") \"lazyArg\")")
 	case "stop":
 		b.WriteString("(stop " + strconv.Quote(n.S) + ")")
 	default:
